@@ -161,7 +161,8 @@ func evalPureStmtBlock(vm *r.VM, stmtBlock *syntax.StmtBlock) (r.Element, error)
 	scope := vm.BeginScope()
 	defer scope.EndScope()
 
-	var rtnValue r.Element
+	// a block that holds declarations of methods / types only yields 空 (not a Go nil)
+	var rtnValue r.Element = value.NewNull()
 	var err error
 
 	for _, stmt := range stmtBlock.Children {
